@@ -213,6 +213,10 @@ func NewPkgSelector(root *packages.Package) PkgSelector {
 	var prefix string
 	if len(chunks) == 1 {
 		prefix = root.PkgPath
+	} else if !strings.Contains(chunks[0], ".") {
+		// the first element is not a domain : the module is a local one (like "myapp"),
+		// and its packages (myapp/models, myapp/enums) are siblings
+		prefix = chunks[0]
 	} else if len(chunks) >= 2 {
 		prefix = strings.Join(chunks[:2], "/")
 	}
